@@ -848,7 +848,7 @@ def TupleSort(sorts):
 def _tuple_term(zs):
     return TupleSort([z.sort() for z in zs]).mk(*zs)
 
-_BUILTINS = set('round float int len range print sorted tuple list set dict str min max abs enumerate zip hasattr isinstance super StringIO open bool round sum Exception ValueError KeyError TypeError IndexError NotImplementedError AttributeError ZeroDivisionError NameError object property'.split())
+_BUILTINS = set('reversed round float int len range print sorted tuple list set dict str min max abs enumerate zip hasattr isinstance super StringIO open bool round sum Exception ValueError KeyError TypeError IndexError NotImplementedError AttributeError ZeroDivisionError NameError object property'.split())
 
 
 # =====================================================================================
@@ -924,6 +924,13 @@ class StmtMixin(object):
     def bind(self, target, v, st):
         if isinstance(target, ast.Name):
             st.env[target.id] = v; return
+        if isinstance(target, (ast.Tuple, ast.List)) and isinstance(self.deref(v, st), SeqV) and not any(isinstance(e, ast.Starred) for e in target.elts):
+            # unpacking a sequence of symbolic length: a ValueError site unless the length is known to fit (obligation)
+            sv = self.deref(v, st)
+            self.obl('unpack', st, z3.Length(sv.z) == len(target.elts))
+            st.pc.append(z3.Length(sv.z) == len(target.elts))
+            for i_, t in enumerate(target.elts): self.bind(t, wrap(sv.elem, sv.z[i_]), st)
+            return
         if isinstance(target, (ast.Tuple, ast.List)):
             items = self.iter_concrete(v, st)
             if len(items) != len(target.elts): raise Unsupported('unpack arity (would be a ValueError site)')
@@ -1132,6 +1139,13 @@ class StmtMixin(object):
                 raise Unsupported('zip over symbolic sequences')
         else:
             src = self.deref(itv, st)
+            if isinstance(src, Obj) and getattr(self.reg.classes.get(src.cls), 'external', False):
+                # iteration over a library object: its assumed __iter__ contract names the sequence iterated over
+                c_it = self.reg.get('<ext>', '%s.__iter__' % src.cls)
+                if c_it is None: raise Unsupported('iteration over external %s has no assumed contract' % src.cls)
+                r_it = self.call_contract(c_it, None, [itv], {}, st, s)
+                if len(r_it) != 1: raise Unsupported('forking __iter__')
+                src, st = self.deref(r_it[0][0], r_it[0][1]), r_it[0][1]
             if isinstance(src, (Tup, PyList)): return self.unrolled(s, list(src.items), st)
             if isinstance(src, PyDict): return self.unrolled(s, [PyStr(k) for k in src.d], st)
             if isinstance(src, SeqV):
@@ -1503,7 +1517,13 @@ class CallMixin(object):
             doc = cat(*[self.text_of(a, st) for a in d]) if len(d) == 1 else cat(*sum([[self.text_of(a, st), lit_doc(' ')] for a in d], [])[:-1])
             self.doc_append(f, cat(doc, NL), st)
             return [(NONE, st)]
+        if name == 'reversed':
+            a = d[0]
+            if isinstance(a, NTup): a = Tup(list(a.items))
+            if isinstance(a, (Tup, PyList)): return [(Tup(list(reversed(a.items))), st)]
+            raise Unsupported('reversed(%r)' % (a,))
         if name in ('tuple', 'list'):
+            if d and isinstance(d[0], NTup): d = [Tup(list(d[0].items))] + d[1:]
             if not d: return [(st.new_cell(PyList([])) if name == 'list' else Tup([]), st)]
             a = d[0]
             if isinstance(a, (Tup, PyList)):
@@ -1594,6 +1614,11 @@ class CallMixin(object):
         if isinstance(r, Sc) and r.py == 'str' and name == 'split' and not args:
             self.reg.assume('A4: str.split() without argument = the whitespace-separated tokens (uninterpreted function split_ws)')
             return [(SeqV(split_ws(r.z), T.Str), st)]
+        if isinstance(r, Sc) and r.py == 'str' and name == 'split' and len(args) == 1 and isinstance(d[0], PyStr):
+            self.reg.assume('A4: str.split(sep) = the sep-separated pieces (uninterpreted function split_on; at least one piece)')
+            pieces = split_on(r.z, z3.StringVal(d[0].s))
+            st.pc.append(z3.Length(pieces) >= 1)
+            return [(SeqV(pieces, T.Str), st)]
         if isinstance(r, Sc) and r.py == 'str' and name == 'strip' and not args:
             return [(Sc(strip_ws(r.z), 'str'), st)]
         if isinstance(r, PyStr):
@@ -1955,6 +1980,7 @@ def round_n(x, n):
     p = z3.RealVal(10 ** n)
     return z3.ToReal(z3.ToInt(x * p + z3.RealVal('1/2'))) / p
 
+split_on = z3.Function('split_on', StrS, StrS, z3.SeqSort(StrS))
 split_ws = z3.Function('split_ws', StrS, z3.SeqSort(StrS)); strip_ws = z3.Function('strip_ws', StrS, StrS)
 parses_int = z3.Function('parses_int', StrS, BoolS); parses_float = z3.Function('parses_float', StrS, BoolS)
 str_to_int = z3.Function('str_to_int', StrS, IntS); str_to_real = z3.Function('str_to_real', StrS, RealS)
